@@ -1,0 +1,12 @@
+//go:build verif
+// +build verif
+
+package distributed
+
+// VerifSetClock replaces the clock used to stamp local writes (build tag "verif") and
+// returns a function restoring the previous one.
+func VerifSetClock(f func() int64) (restore func()) {
+	old := clock
+	clock = f
+	return func() { clock = old }
+}
